@@ -1,7 +1,9 @@
 //! `vh` - conformance harness binding the TLA+ specifications in /verif/spec to the
 //! real code of nerdsane/redis-rust (path dependency on /repo, feature `verif-hooks`).
+mod ae;
 mod clock;
 mod crdt;
+mod place;
 mod recov;
 mod repl;
 mod stream;
@@ -27,6 +29,8 @@ fn main() {
         "recov" => recov::main(rest),
         "repl" => repl::main(rest),
         "clock" => clock::main(rest),
+        "ae" => ae::main(rest),
+        "place" => place::main(rest),
         m => {
             eprintln!("unknown module {m}");
             2
